@@ -1,9 +1,223 @@
 import RQ.Spec.Abs
 import RQ.Props.C04
 import RQ.Props.C11
+import RQ.Lemmas.RefineSim
 /-! Helper lemmas for C05: the driver's application loop (memory cache + rollback) refines the abstract
-specification `RQ.Abs.applyRange`. -/
+specification `RQ.Abs.applyRange`.
+
+Layers (`RefineBase` … `RefineSim`, then this file):
+* names with equal components are interchangeable; `Mem.get`/`Mem.put` and `look`/`put`/`ofMem`; `SameTree`;
+* `FilePatch.apply` ignores and keeps `existed`, records its direction, keeps "deleted ⇒ no content";
+* `Ext fs m m'` (`m'` = `m` plus entries loaded from `fs`), `undoAll`, `Undoable`;
+* one file patch: `applyOne` against `applyFP`, and the pushed `Status` is `Undoable`;
+* here: the rollback loop is `undoAll`, all file patches of a patch, the range. -/
 namespace RQ.Abs
-open RQ RQ.Push
+open RQ RQ.Push RQ.Spec RQ.Parse RQ.Write
+
+theorem rejsOf_cons (s : Status) (L : List Status) : rejsOf (s :: L) = rejOf s ++ rejsOf L := by
+  simp [rejsOf]
+
+theorem rejsOf_append (L1 L2 : List Status) : rejsOf (L1 ++ L2) = rejsOf L1 ++ rejsOf L2 := by
+  simp [rejsOf]
+
+/-- the rollback loop of the driver pops exactly the `Status` of the failing patch and undoes them -/
+theorem rollback_eq (idx : Nat) (applied0 : List Status) (h0 : ∀ s ∈ applied0, s.index < idx) :
+    ∀ (L : List Status) (fuel : Nat) (M : Mem) (R : List (Bytes × Bytes)), L.length < fuel →
+      (∀ s ∈ L, s.index = idx) →
+      rollbackAndRenderRej fuel { applied := L ++ applied0, mem := M } idx R =
+        match undoAll M L with
+        | .error e => .error e
+        | .ok M' => .ok ({ applied := applied0, mem := M' }, R ++ rejsOf L) := by
+  intro L
+  induction L with
+  | nil =>
+    intro fuel M R hf _
+    cases fuel with
+    | zero => omega
+    | succ f =>
+      unfold rollbackAndRenderRej
+      simp only [List.nil_append, undoAll, rejsOf, List.flatMap_nil, List.append_nil]
+      cases applied0 with
+      | nil => rfl
+      | cons s rest =>
+        have hlt := h0 s (by simp)
+        simp only
+        rw [if_neg (by omega), if_pos hlt]
+  | cons s L ih =>
+    intro fuel M R hf hidx
+    cases fuel with
+    | zero => omega
+    | succ f =>
+      have hs := hidx s (by simp)
+      unfold rollbackAndRenderRej
+      simp only [List.cons_append, undoAll]
+      rw [if_neg (by omega), if_neg (by omega)]
+      cases hr : rollbackOne M s with
+      | error e => rfl
+      | ok r =>
+        obtain ⟨mem, x⟩ := r
+        simp only
+        have hL : L.length < f := by simp only [List.length_cons] at hf; omega
+        have hidx' : ∀ s ∈ L, s.index = idx := fun s' hs' => hidx s' (by simp [hs'])
+        rw [rejsOf_cons]
+        by_cases hfl : s.report.failed = true
+        · rw [if_pos hfl, ih f mem _ hL hidx']
+          cases undoAll mem L with
+          | error e => rfl
+          | ok M' => simp [rejOf, hfl]
+        · rw [if_neg hfl, ih f mem _ hL hidx']
+          cases undoAll mem L with
+          | error e => rfl
+          | ok M' => simp [rejOf, hfl]
+
+theorem applyFPs_cons (fs : FS) (cfg : Cfg) (entry : Series.Entry) (fp : PFilePatch) (fps : List PFilePatch)
+    (t : ATree) (ok : Bool) (rejs : List (Bytes × Bytes)) :
+    applyFPs fs cfg entry (fp :: fps) t ok rejs = match applyFP t fs cfg entry fp with
+      | .error e => .error e
+      | .ok r => applyFPs fs cfg entry fps r.tree (ok && r.ok) (r.rej.toList ++ rejs) := by
+  rw [applyFPs]
+  cases applyFP t fs cfg entry fp with
+  | error e => rfl
+  | ok r =>
+    simp only
+    cases r.rej <;> rfl
+
+/-- all file patches of one patch -/
+theorem applyFilePatches_sim {fs : FS} {cfg : Cfg} {i : Nat} {entry : Series.Entry} (fps : List PFilePatch) :
+    ∀ (st : St) (t : ATree) (af ok : Bool) (rejs : List (Bytes × Bytes)),
+      SameTree fs (ofMem st.mem) t → MemDE st.mem → (∀ fp ∈ fps, fp.WFlen) → af = !ok →
+      (∀ st' af', applyFilePatches st fs cfg i entry fps af = .ok (st', af') →
+        ∃ t' ok' L, applyFPs fs cfg entry fps t ok rejs = .ok (t', ok', rejsOf L ++ rejs) ∧ af' = !ok' ∧
+          SameTree fs (ofMem st'.mem) t' ∧ MemDE st'.mem ∧ st'.applied = L ++ st.applied ∧
+          (∀ s ∈ L, s.index = i) ∧ Undoable fs st.mem L st'.mem) ∧
+      (∀ e, applyFilePatches st fs cfg i entry fps af = .error e →
+        applyFPs fs cfg entry fps t ok rejs = .error e) := by
+  induction fps with
+  | nil =>
+    intro st t af ok rejs hs hde _ haf
+    constructor
+    · intro st' af' h
+      unfold applyFilePatches at h
+      cases h
+      exact ⟨t, ok, [], rfl, haf, hs, hde, rfl, fun s hs => (by cases hs), Undoable.nil (Ext.refl _ _)⟩
+    · intro e h
+      unfold applyFilePatches at h
+      cases h
+  | cons fp fps ih =>
+    intro st t af ok rejs hs hde hw haf
+    have hwfp := hw fp (by simp)
+    have hwfps : ∀ fp' ∈ fps, fp'.WFlen := fun fp' h' => hw fp' (by simp [h'])
+    constructor
+    · intro st' af' h
+      unfold applyFilePatches at h
+      split at h
+      · cases h
+      · rename_i st1 b h1
+        obtain ⟨r, hr, hb, hs1, hde1, L1, happ1, hidx1, hundo1, hrej1⟩ := applyOne_ok_sim hs hde hwfp h1
+        have haf1 : (af || !b) = !(ok && r.ok) := by
+          rw [haf, hb]; cases ok <;> cases r.ok <;> rfl
+        obtain ⟨t', ok', L2, hfps, haf', hs', hde', happ2, hidx2, hundo2⟩ :=
+          (ih st1 r.tree (af || !b) (ok && r.ok) (r.rej.toList ++ rejs)
+            hs1 hde1 hwfps haf1).1 st' af' h
+        refine ⟨t', ok', L2 ++ L1, ?_, haf', hs', hde', ?_, ?_, Undoable.append hundo1 hundo2⟩
+        · rw [applyFPs_cons, hr]
+          simp only
+          rw [hfps, rejsOf_append, hrej1, List.append_assoc]
+        · rw [happ2, happ1, List.append_assoc]
+        · intro s hs
+          rw [List.mem_append] at hs
+          cases hs with
+          | inl h => exact hidx2 s h
+          | inr h => exact hidx1 s h
+    · intro e h
+      unfold applyFilePatches at h
+      split at h
+      · rename_i e' h1
+        cases h
+        rw [applyFPs_cons, applyOne_err_sim hs h1]
+      · rename_i st1 b h1
+        obtain ⟨r, hr, hb, hs1, hde1, L1, happ1, hidx1, hundo1, hrej1⟩ := applyOne_ok_sim hs hde hwfp h1
+        have haf1 : (af || !b) = !(ok && r.ok) := by
+          rw [haf, hb]; cases ok <;> cases r.ok <;> rfl
+        have := (ih st1 r.tree (af || !b) (ok && r.ok) (r.rej.toList ++ rejs)
+            hs1 hde1 hwfps haf1).2 e h
+        rw [applyFPs_cons, hr]
+        exact this
+
+/-- parsed patches have well-formed hunks -/
+theorem parsed_wflen {bytes : Bytes} {strip : Nat} {wh : Bool} {patch : Patch}
+    (h : parsePatch bytes strip wh = .ok patch) : ∀ fp ∈ patch.fps, fp.WFlen :=
+  fun fp hfp hk hhk => ((C11_wf bytes strip wh patch h fp hfp).2.2.2 hk hhk).1.wflen
+
+/-- the range -/
+theorem applyLoop_sim (fs : FS) (cfg : Cfg) (range : List Series.Entry) :
+    ∀ (k : Nat) (st : St) (t : ATree), SameTree fs (ofMem st.mem) t → MemDE st.mem →
+      (∀ s ∈ st.applied, s.index < k) →
+      match applyLoop fs cfg range k st, applyRange fs cfg range k t with
+      | .ok (st', k1, rejs), .ok (t', k2, rejs') =>
+          k1 = k2 ∧ rejs = rejs' ∧ (cfg.dryRun = false → SameTree fs (ofMem st'.mem) t')
+      | .error e, .error e' => e = e'
+      | _, _ => False := by
+  induction range with
+  | nil =>
+    intro k st t hs _ _
+    unfold applyLoop applyRange
+    exact ⟨rfl, rfl, fun _ => hs⟩
+  | cons entry rest ih =>
+    intro k st t hs hde hidx
+    unfold applyLoop applyRange
+    cases hpk : patchKey cfg entry.name with
+    | none => rfl
+    | some pk =>
+      simp only
+      cases hrd : fs.readFile pk with
+      | error e => rfl
+      | ok r =>
+        obtain ⟨bytes, mode⟩ := r
+        simp only
+        cases hpp : parsePatch bytes entry.strip false with
+        | error e => rfl
+        | ok patch =>
+          simp only
+          have hw := parsed_wflen hpp
+          have hsim := applyFilePatches_sim (fs := fs) (cfg := cfg) (i := k) (entry := entry) patch.fps
+            st t false true [] hs hde hw rfl
+          cases happ : applyFilePatches st fs cfg k entry patch.fps false with
+          | error e =>
+            rw [hsim.2 e happ]
+          | ok r =>
+            obtain ⟨st1, af⟩ := r
+            obtain ⟨t', ok', L, hfps, haf, hs1, hde1, happl, hidxL, hundo⟩ := hsim.1 st1 af happ
+            rw [hfps]
+            simp only [List.append_nil]
+            cases ok' with
+            | true =>
+              simp only [Bool.not_true] at haf
+              subst haf
+              simp only [Bool.false_eq_true, if_false, if_true]
+              apply ih (k + 1) st1 t' hs1 hde1
+              intro s hs
+              rw [happl, List.mem_append] at hs
+              cases hs with
+              | inl h => rw [hidxL s h]; omega
+              | inr h => have := hidx s h; omega
+            | false =>
+              simp only [Bool.not_false] at haf
+              subst haf
+              simp only [if_true, Bool.false_eq_true, if_false]
+              cases hdry : cfg.dryRun with
+              | true =>
+                simp only [if_true]
+                exact ⟨trivial, trivial, fun h => by cases h⟩
+              | false =>
+                simp only [Bool.false_eq_true, if_false]
+                obtain ⟨app1, mem1⟩ := st1
+                simp only at happl hs1 hde1 hundo
+                subst happl
+                rw [rollback_eq k st.applied hidx L _ mem1 [] (by simp only [List.length_append]; omega) hidxL]
+                obtain ⟨M', hu, hext⟩ := hundo mem1 (Ext.refl _ _)
+                rw [hu]
+                simp only [List.nil_append]
+                exact ⟨trivial, trivial, fun _ => (Ext.sameTree hext).trans hs⟩
 
 end RQ.Abs
